@@ -76,6 +76,11 @@ def may_throw(f, st):
             return {'nlohmann::json::parse_error'}, 'json::parse'
         if fn in ('at',):
             return {'nlohmann::json::out_of_range', 'nlohmann::json::type_error'}, 'json::at'
+        if fn == 'value' and 'basic_json' in cls and len(st.get('args', ())) >= 2:
+            # value(key, default): type_error.306 on a non-object, type_error.302 when the key is present with an inconvertible value
+            return {'nlohmann::json::type_error'}, 'json::value'
+        if fn in ('push_back', 'emplace_back', 'emplace', 'update', 'merge_patch', 'patch', 'erase', 'insert', 'front', 'back') and 'basic_json' in cls:
+            return {'nlohmann::json::type_error', 'nlohmann::json::out_of_range'}, 'json::' + fn
         if fn in ('get', 'get_to', 'get_ref', 'operator int', 'operator basic_string', 'operator bool', 'operator double') or fn.startswith('operator '):
             if fn in ('operator[]', 'operator=', 'operator==', 'operator!=', 'operator<<', 'operator>>'):
                 return None
